@@ -147,3 +147,31 @@ def ring_for(eng, signs=(), extra_pairs=()):
         if z3.is_const(sv) and z3.is_const(cv) and sv.decl().kind() == z3.Z3_OP_UNINTERPRETED and cv.decl().kind() == z3.Z3_OP_UNINTERPRETED: R.pair(sv, cv)
     for sg in signs: R.sign(sg)
     return R
+
+def sqrt_monomial(p, positive):
+    """if p is a single monomial c * prod x_i^(2 e_i) with c a positive rational square and every x_i in `positive` (names), return the root as Poly"""
+    from math import isqrt
+    if len(p.t) == 0: return p.R.const(0)
+    if len(p.t) != 1: return None
+    (m, c), = p.t.items()
+    if c <= 0: return None
+    n, d = c.numerator, c.denominator
+    if isqrt(n) ** 2 != n or isqrt(d) ** 2 != d: return None
+    root = []
+    for name, e in m:
+        if e % 2 or name not in positive: return None
+        root.append((name, e // 2))
+    return Poly(p.R, {tuple(root): Fraction(isqrt(n), isqrt(d))})
+
+def div_monomial(p, q):
+    """p / q when q is a single monomial dividing every term of p, else None"""
+    if len(q.t) != 1: return None
+    (mq, cq), = q.t.items(); dq = dict(mq); out = {}
+    for m, c in p.t.items():
+        dm = dict(m)
+        for name, e in dq.items():
+            if dm.get(name, 0) < e: return None
+            dm[name] -= e
+            if dm[name] == 0: del dm[name]
+        out[tuple(sorted(dm.items()))] = c / cq
+    return Poly(p.R, out)
